@@ -14,10 +14,10 @@ def build():
 def run(tier, deadline):
     t0 = time.time(); build()
     env = dict(os.environ, CAT_LIB=vbuild.build("prod"))
-    sets = [("%ndslh5.x", 5), ("%n[]^s", 5)] if tier == "quick" else [("%ndslh5.x", 6), ("%n[]^sd", 6), ("%n*c-Ljztd", 5)]
+    sets = [("%ndslh5.x", 5), ("%n[]^s", 5)] if tier == "quick" else [("%ndslh5.x", 7), ("%n[]^sd", 7), ("%n*c-Ljztd", 6)]
     jobs = []
     for alpha, L in sets:
-        nsh = 8 if len(alpha) ** L > 50000 else 2
+        nsh = 16 if len(alpha) ** L > 50000 else 2
         for fam in ("narrow", "wide"):
             for sh in range(nsh): jobs.append([fam, str(L), alpha, str(sh), str(nsh)])
     viol = {}; internal = []; tot = {"formats": 0, "calls": 0, "calls_with_n": 0, "n_rejected": 0}; timed_out = []
